@@ -1,5 +1,22 @@
+#[cfg(metrics_verif)]
+use self::verif_shims::{Atomic, Backoff};
+#[cfg(metrics_verif)]
+use crossbeam_epoch::{pin as epoch_pin, Guard, Owned, Shared};
+#[cfg(metrics_verif)]
+use metrics::__verif::sync::atomic::AtomicUsize;
+#[cfg(metrics_verif)]
+use std::{
+    cell::UnsafeCell,
+    cmp::min,
+    mem::{self, MaybeUninit},
+    slice,
+    sync::atomic::Ordering,
+};
+#[cfg(not(metrics_verif))]
 use crossbeam_epoch::{pin as epoch_pin, Atomic, Guard, Owned, Shared};
+#[cfg(not(metrics_verif))]
 use crossbeam_utils::Backoff;
+#[cfg(not(metrics_verif))]
 use std::{
     cell::UnsafeCell,
     cmp::min,
@@ -7,6 +24,74 @@ use std::{
     slice,
     sync::atomic::{AtomicUsize, Ordering},
 };
+
+/// Verification seams: announce every operation on the epoch-managed pointers and every backoff
+/// iteration to the installed hooks, then perform the real operation.
+#[cfg(metrics_verif)]
+mod verif_shims {
+    use crossbeam_epoch::{CompareExchangeError, Guard, Pointer, Shared};
+    use metrics::__verif::{spin_at, sync_point_at};
+    use std::panic::Location;
+    use std::sync::atomic::Ordering;
+
+    #[repr(transparent)]
+    pub struct Atomic<T>(crossbeam_epoch::Atomic<T>);
+
+    impl<T> std::fmt::Debug for Atomic<T> {
+        fn fmt(&self, f: &mut std::fmt::Formatter<'_>) -> std::fmt::Result {
+            self.0.fmt(f)
+        }
+    }
+
+    impl<T> Atomic<T> {
+        pub fn null() -> Self {
+            Self(crossbeam_epoch::Atomic::null())
+        }
+        #[track_caller]
+        pub fn load<'g>(&self, ord: Ordering, guard: &'g Guard) -> Shared<'g, T> {
+            let site = Location::caller();
+            sync_point_at("epoch.load", site);
+            let r = self.0.load(ord, guard);
+            sync_point_at("epoch.load.done", site);
+            r
+        }
+        #[track_caller]
+        pub fn store<P: Pointer<T>>(&self, new: P, ord: Ordering) {
+            let site = Location::caller();
+            sync_point_at("epoch.store", site);
+            self.0.store(new, ord);
+            sync_point_at("epoch.store.done", site);
+        }
+        #[track_caller]
+        pub fn compare_exchange<'g, P: Pointer<T>>(
+            &self,
+            current: Shared<'_, T>,
+            new: P,
+            success: Ordering,
+            failure: Ordering,
+            guard: &'g Guard,
+        ) -> Result<Shared<'g, T>, CompareExchangeError<'g, T, P>> {
+            let site = Location::caller();
+            sync_point_at("epoch.compare_exchange", site);
+            let r = self.0.compare_exchange(current, new, success, failure, guard);
+            sync_point_at("epoch.compare_exchange.done", site);
+            r
+        }
+    }
+
+    pub struct Backoff(crossbeam_utils::Backoff);
+
+    impl Backoff {
+        pub fn new() -> Self {
+            Self(crossbeam_utils::Backoff::new())
+        }
+        #[track_caller]
+        pub fn snooze(&self) {
+            let _ = &self.0;
+            spin_at("backoff.snooze", Location::caller());
+        }
+    }
+}
 
 #[cfg(target_pointer_width = "16")]
 const BLOCK_SIZE: usize = 16;
@@ -137,6 +222,11 @@ unsafe impl<T: Sync> Sync for Block<T> {}
 
 impl<T> Drop for Block<T> {
     fn drop(&mut self) {
+        #[cfg(metrics_verif)]
+        while !self.is_quiesced() {
+            metrics::__verif::spin("block.drop.wait");
+        }
+        #[cfg(not(metrics_verif))]
         while !self.is_quiesced() {}
 
         // SAFETY:
